@@ -41,7 +41,7 @@ func PlanCases(prop, tier string, seed int64) (cases []*Case, rule []string) {
 		add(n(4, 40), "a 1,030-2,400 document segment merged with deletions (several doc-value chunks; dense terms whose cardinality crosses 1,024 through the deletions; an empty doc-value chunk)", func() *Case { return g.BigMerge() })
 		add(n(20, 300), "the byte layout the merger writes compared with the model's", func() *Case { return g.LayoutCase(false) })
 		add(n(2, 20), "merges whose term cardinalities sit around the 1,024-posting boundary of the adaptive chunk mode (above, crossing through the deletions, an empty first term after a long last term)", func() *Case { return g.ChunkBoundaryMerge() })
-		add(n(8, 120), "twin segments (same shape and offsets, different term bytes or frequencies): lists, iterators, doc-value readers carried from one to the other, then merged", func() *Case { return g.TwinCase() })
+		add(n(8, 120), "twin segments (same shape and offsets, different term bytes, frequencies or stored values): lists, iterators, doc-value readers and the stored-field context carried from one to the other, then merged", func() *Case { return g.TwinCase() })
 		add(n(4, 60), "merges through the stored-field re-encoding path (deletions, differing field lists) with more than 128 survivors: renumbering across a stored block", func() *Case { return g.ReencodeBlockMerge() })
 		add(n(5, 60), "a zero-document merge output that kept its field list, reloaded and merged in every position with a segment that has fewer fields", func() *Case { return g.ZeroDocFieldsMerge() })
 		add(n(1, 9), "merges with exactly 1,024 or 2,048 survivors (last doc-value and postings chunk exactly full), dumped, reloaded from memory and from a file", func() *Case { return g.ExactChunkMerge() })
@@ -50,28 +50,34 @@ func PlanCases(prop, tier string, seed int64) (cases []*Case, rule []string) {
 		add(n(30, 400), "operation scripts on one chunkedContentCoder reused for several fields (Reset in between, sparse fields, skipped chunks) compared with the coder model: per chunk number the header pairs and decompressed data", func() *Case { return g.UnitContentCoder() })
 		add(n(8, 100), "scripts on the stored-field block coder (0-300 documents): block boundaries, sizes and decompressed blocks compared with the coder model", func() *Case { return g.UnitDocCoder() })
 		add(n(40, 600), "the dictionary enumerator (k-way merge) over 1-4 real vellum FSTs (empty dictionaries, the empty term alone or with others, 1-hit values) walked with Current / GetLowIdxsAndValues / Next and compared with the enumerator model", func() *Case { return g.UnitEnumerator() })
+		add(n(5, 60), "a first input with every field and a later input (no deletions) with a strict subset of them, merged in several orders and as merges of merges: stored values must keep their field", func() *Case { return g.SubsetFieldsMerge() })
+		add(n(3, 12), "a term with 1,023 / 1,024 / 2,047 postings in a built input plus one 1-hit posting in a previously merged input whose document is (or is not) deleted in this merge: writer and reader must agree on the chunk size", func() *Case { return g.OneHitBoundary() })
 	case "C03":
 		add(n(140, 2000), "merge with random deletion sets (nil, empty, sparse, dense, everything) and report DocumentNumbers", func() *Case { return g.MergeObs() })
 		add(n(12, 150), "segments with identical field lists merged without deletions (byte-copy path across 128-document blocks): content at the reported numbers", func() *Case { return g.CopyPathMerge() })
 		add(n(4, 60), "merges through the stored-field re-encoding path (deletions, differing field lists) with more than 128 survivors: renumbering across a stored block", func() *Case { return g.ReencodeBlockMerge() })
 		add(n(5, 60), "a zero-document merge output that kept its field list, reloaded and merged in every position with a segment that has fewer fields", func() *Case { return g.ZeroDocFieldsMerge() })
 		add(n(1, 6), "three segments sharing the empty term whose cardinality only the sum of all three takes above 1,024: flat, left, right bracketing and single-segment merge dumped", func() *Case { return g.BigAssoc() })
+		add(n(5, 60), "a first input with every field and a later input (no deletions) with a strict subset of them, merged in several orders and as merges of merges: stored values must keep their field", func() *Case { return g.SubsetFieldsMerge() })
 	case "C04":
 		add(n(30, 400), "persist every segment of a random merge tree; the byte-exact loader models (footer, fields section, stored trailer and index, doc-value locations) run on the real bytes and must read what the loader reads", func() *Case { return g.FooterCase() })
 		add(n(110, 1500), "build or merge, dump, reload from memory and from a file, re-persist the loaded segment, dump each", func() *Case { return g.PersistLoad() })
 		add(n(2, 12), "merges with exactly 1,024 or 2,048 survivors (last doc-value and postings chunk exactly full), dumped, reloaded from memory and from a file", func() *Case { return g.ExactChunkMerge() })
 		add(n(4, 40), "a zero-document merge output that kept its field list, reloaded and merged in every position with a segment that has fewer fields", func() *Case { return g.ZeroDocFieldsMerge() })
+		add(n(7, 28), "the smallest files ice writes (one document with only _id, with or without doc values or stored value, the empty term alone, no _id at all): built, merged, loaded from memory and from a file; the loader models run on the real bytes", func() *Case { return g.TinyShapes() })
 	case "C05":
 		add(n(150, 2500), "a built/loaded/merged segment and 8 iterators with random exclusions, flags, Next/Advance sequences", func() *Case { return g.IterCase(8) })
 		add(n(2, 20), "merges whose term cardinalities sit around the 1,024-posting boundary of the adaptive chunk mode (writer and reader must derive the same chunk size)", func() *Case { return g.ChunkBoundaryMerge() })
-		add(n(8, 120), "twin segments (same shape and offsets, different term bytes or frequencies): lists, iterators, doc-value readers carried from one to the other, then merged", func() *Case { return g.TwinCase() })
+		add(n(8, 120), "twin segments (same shape and offsets, different term bytes, frequencies or stored values): lists, iterators, doc-value readers and the stored-field context carried from one to the other, then merged", func() *Case { return g.TwinCase() })
+		add(n(3, 12), "a term with 1,023 / 1,024 / 2,047 postings in a built input plus one 1-hit posting in a previously merged input whose document is (or is not) deleted in this merge: writer and reader must agree on the chunk size", func() *Case { return g.OneHitBoundary() })
 	case "C13":
 		add(n(150, 2500), "histories of 14 lookups reusing postings lists and iterators across terms, encodings and flags", func() *Case { return g.IterCase(14) })
 		add(n(40, 600), "doc-value readers reused across visit sequences", func() *Case { return g.DVCase(false) })
 		add(n(2, 30), "one doc-value reader reused across 1024-document chunks (1030-2230 documents)", func() *Case { return g.DVCase(true) })
 		add(n(1, 20), "one reader hopping through an empty chunk", func() *Case { return g.DVHop() })
 		add(n(40, 600), "dictionary enumeration on reused dictionaries", func() *Case { return g.DictCase() })
-		add(n(12, 150), "twin segments (same shape and offsets, different term bytes or frequencies): lists, iterators, doc-value readers carried from one to the other, then merged", func() *Case { return g.TwinCase() })
+		add(n(12, 150), "twin segments (same shape and offsets, different term bytes, frequencies or stored values): lists, iterators, doc-value readers and the stored-field context carried from one to the other, then merged", func() *Case { return g.TwinCase() })
+		add(n(1, 8), "1,200-1,400 documents, a doc-value field whose first 1,024-document chunk is empty, a doc-value field without any term, a merge deleting every document with a value; built, merged, reloaded from a file", func() *Case { return g.EmptyFirstDVChunk(false) })
 	case "C06":
 		add(n(130, 2000), "stored-field visits in random order with early stop and out-of-range numbers", func() *Case { return g.StoredCase(false) })
 		add(n(12, 200), "the same on 120-420 documents (several 128-document blocks, short records)", func() *Case { return g.StoredCase(true) })
@@ -79,6 +85,8 @@ func PlanCases(prop, tier string, seed int64) (cases []*Case, rule []string) {
 		add(n(4, 60), "merges through the stored-field re-encoding path (deletions, differing field lists) with more than 128 survivors: renumbering across a stored block", func() *Case { return g.ReencodeBlockMerge() })
 		add(n(5, 60), "a zero-document merge output that kept its field list, reloaded and merged in every position with a segment that has fewer fields", func() *Case { return g.ZeroDocFieldsMerge() })
 		add(n(10, 150), "scripts on the stored-field block coder (0-300 documents): block boundaries, sizes and decompressed blocks compared with the coder model", func() *Case { return g.UnitDocCoder() })
+		add(n(9, 120), "twin segments (same shape and offsets, different term bytes, frequencies or stored values): lists, iterators, doc-value readers and the stored-field context carried from one to the other, then merged", func() *Case { return g.TwinCase() })
+		add(n(5, 60), "a first input with every field and a later input (no deletions) with a strict subset of them, merged in several orders and as merges of merges: stored values must keep their field", func() *Case { return g.SubsetFieldsMerge() })
 	case "C07":
 		add(n(120, 1800), "doc-value readers over field subsets, forward/backward/random visits", func() *Case { return g.DVCase(false) })
 		add(n(3, 40), "the same on 1030-2230 documents (several 1024-document chunks)", func() *Case { return g.DVCase(true) })
@@ -86,8 +94,9 @@ func PlanCases(prop, tier string, seed int64) (cases []*Case, rule []string) {
 		add(n(3, 30), "merges of 1,030-2,400 document segments (dense terms, a doc-value chunk without one field) dumped completely", func() *Case { return g.BigMerge() })
 		add(n(1, 10), "2,050-2,250 documents, two doc-value fields of different sparsity (values only in the first documents / nothing in the middle chunk) written one after the other, built and merged", func() *Case { return g.SparseDVFields(false) })
 		add(n(1, 9), "merges with exactly 1,024 or 2,048 survivors (last doc-value and postings chunk exactly full), dumped, reloaded from memory and from a file", func() *Case { return g.ExactChunkMerge() })
-		add(n(6, 80), "twin segments (same shape and offsets, different term bytes or frequencies): lists, iterators, doc-value readers carried from one to the other, then merged", func() *Case { return g.TwinCase() })
+		add(n(6, 80), "twin segments (same shape and offsets, different term bytes, frequencies or stored values): lists, iterators, doc-value readers and the stored-field context carried from one to the other, then merged", func() *Case { return g.TwinCase() })
 		add(n(40, 600), "operation scripts on one chunkedContentCoder reused for several fields (Reset in between, sparse fields, skipped chunks) compared with the coder model: per chunk number the header pairs and decompressed data", func() *Case { return g.UnitContentCoder() })
+		add(n(1, 8), "1,200-1,400 documents, a doc-value field whose first 1,024-document chunk is empty, a doc-value field without any term, a merge deleting every document with a value; built, merged, reloaded from a file", func() *Case { return g.EmptyFirstDVChunk(false) })
 	case "C08":
 		add(n(150, 2500), "dictionary enumeration with key ranges and prefix automata, Contains", func() *Case { return g.DictCase() })
 		add(n(25, 300), "PostingsList lookups of known, unknown-term and unknown-field entries through reused lists (an unknown term yields an empty list whatever was looked up before)", func() *Case { return g.IterCase(10) })
@@ -100,6 +109,8 @@ func PlanCases(prop, tier string, seed int64) (cases []*Case, rule []string) {
 		add(n(70, 900), "2-4 built segments with random deletions: flat merge, two left bracketings (deletions inside / translated through DocumentNumbers), right bracketing, single-segment merges; full dumps of all variants", func() *Case { return g.AssocCase() })
 		add(n(1, 8), "three segments sharing the empty term whose cardinality only the sum of all three takes above 1,024: flat, left, right bracketing and single-segment merge dumped", func() *Case { return g.BigAssoc() })
 		add(n(40, 600), "the dictionary enumerator (k-way merge) over 1-4 real vellum FSTs (empty dictionaries, the empty term alone or with others, 1-hit values) walked with Current / GetLowIdxsAndValues / Next and compared with the enumerator model", func() *Case { return g.UnitEnumerator() })
+		add(n(5, 60), "a first input with every field and a later input (no deletions) with a strict subset of them, merged in several orders and as merges of merges: stored values must keep their field", func() *Case { return g.SubsetFieldsMerge() })
+		add(n(3, 9), "a term with 1,023 / 1,024 / 2,047 postings in a built input plus one 1-hit posting in a previously merged input whose document is (or is not) deleted in this merge: writer and reader must agree on the chunk size", func() *Case { return g.OneHitBoundary() })
 	case "C18":
 		add(n(150, 2500), "DocsMatchingTerms over mixed, repeated, unknown-field and unknown-term lists", func() *Case { return g.DocsMatchingCase() })
 	case "C10":
@@ -111,6 +122,8 @@ func PlanCases(prop, tier string, seed int64) (cases []*Case, rule []string) {
 		add(n(30, 400), "operation scripts on one chunkedIntCoder (per term: Reset, SetChunkSize with varying chunk sizes and maximal document numbers, ascending Adds, Close, Write) compared with the coder model: chunk boundaries and decompressed contents", func() *Case { return g.UnitIntCoder() })
 		add(n(30, 400), "operation scripts on one chunkedContentCoder reused for several fields (Reset in between, sparse fields, skipped chunks) compared with the coder model: per chunk number the header pairs and decompressed data", func() *Case { return g.UnitContentCoder() })
 		add(n(8, 100), "scripts on the stored-field block coder (0-300 documents): block boundaries, sizes and decompressed blocks compared with the coder model", func() *Case { return g.UnitDocCoder() })
+		add(n(1, 6), "1,200-1,400 documents, a doc-value field whose first 1,024-document chunk is empty, a doc-value field without any term, a merge deleting every document with a value; built, merged, reloaded from a file", func() *Case { return g.EmptyFirstDVChunk(true) })
+		add(n(7, 14), "the smallest files ice writes (one document with only _id, with or without doc values or stored value, the empty term alone, no _id at all): built, merged, loaded from memory and from a file; the loader models run on the real bytes", func() *Case { return g.TinyShapes() })
 	case "C12":
 		add(n(20, 300), "merge and persist workloads whose complete output is compared with the model (the fault-free baseline of the fault enumeration)", func() *Case { return g.PersistLoad() })
 	case "C14":
@@ -120,6 +133,7 @@ func PlanCases(prop, tier string, seed int64) (cases []*Case, rule []string) {
 		add(n(40, 600), "merge trees whose inputs are dumped again after the merges took place", func() *Case { return g.ImmutCase() })
 	case "C19":
 		add(n(20, 300), "file-backed segments read without faults (the baseline of the fault enumeration)", func() *Case { return g.PersistLoad() })
+		add(n(7, 14), "the smallest files ice writes (one document with only _id, with or without doc values or stored value, the empty term alone, no _id at all): built, merged, loaded from memory and from a file; the loader models run on the real bytes", func() *Case { return g.TinyShapes() })
 	case "C09":
 		add(n(20, 300), "sequential baseline: reads of built, merged and loaded segments compared with the model", func() *Case { return g.IterCase(6) })
 	default:
@@ -148,19 +162,19 @@ func NontrivialTags(prop string) map[string]bool {
 	case "C01":
 		set("multi_chunk", "repeated_field", "composite_loc", "coder_reuse")
 	case "C02":
-		set("multi_chunk", "merge_of_merge", "drops_and_survivors", "chunk_boundary", "twin_segments", "reencode_path", "zero_doc_input_with_fields", "exact_chunk_multiple", "coder_reuse", "several_inputs")
+		set("multi_chunk", "merge_of_merge", "drops_and_survivors", "chunk_boundary", "twin_segments", "reencode_path", "zero_doc_input_with_fields", "exact_chunk_multiple", "coder_reuse", "several_inputs", "subset_field_lists", "one_hit_input")
 	case "C03":
-		set("drops_and_survivors", "zero_survivors", "copy_path", "reencode_path", "zero_doc_input_with_fields")
+		set("drops_and_survivors", "zero_survivors", "copy_path", "reencode_path", "zero_doc_input_with_fields", "subset_field_lists")
 	case "C04":
-		set("merge", "empty_batch", "zero_survivors", "multi_chunk", "exact_chunk_multiple")
+		set("merge", "empty_batch", "zero_survivors", "multi_chunk", "exact_chunk_multiple", "tiny_file")
 	case "C05":
-		set("exclusion", "multi_chunk", "replace_actual", "clean_path", "reuse_across_segments")
+		set("exclusion", "multi_chunk", "replace_actual", "clean_path", "reuse_across_segments", "one_hit_input")
 	case "C13":
-		set("reuse_pl", "reuse_it", "reader_reuse", "reuse_across_segments")
+		set("reuse_pl", "reuse_it", "reader_reuse", "reuse_across_segments", "empty_first_dv_chunk")
 	case "C06":
-		set("block_edge", "early_stop", "multi_block", "copy_path", "reencode_path", "coder_reuse")
+		set("block_edge", "early_stop", "multi_block", "copy_path", "reencode_path", "coder_reuse", "subset_field_lists", "twin_segments")
 	case "C07":
-		set("dv_chunk_reentry", "reader_reuse", "sparse_dv_fields", "exact_chunk_multiple", "twin_segments", "coder_reuse")
+		set("dv_chunk_reentry", "reader_reuse", "sparse_dv_fields", "exact_chunk_multiple", "twin_segments", "coder_reuse", "empty_first_dv_chunk")
 	case "C08":
 		set("merged", "loaded", "built")
 	case "C16":
@@ -168,7 +182,7 @@ func NontrivialTags(prop string) map[string]bool {
 	case "C11":
 		set("repersist_loaded")
 	case "C10":
-		set("merge", "multi_chunk", "layout_multi_chunk_term", "layout_multi_block", "layout_1hit", "sparse_dv_fields", "coder_reuse")
+		set("merge", "multi_chunk", "layout_multi_chunk_term", "layout_multi_block", "layout_1hit", "sparse_dv_fields", "coder_reuse", "empty_first_dv_chunk", "tiny_file")
 	case "C12", "C19":
 		set("merge", "multi_chunk", "empty_batch", "zero_survivors")
 	case "C14":
@@ -178,7 +192,7 @@ func NontrivialTags(prop string) map[string]bool {
 	case "C09":
 		set("merged", "loaded", "built")
 	case "C17":
-		set("three_inputs_drop_nonlast", "drops", "empty_term_in_all_inputs", "several_inputs")
+		set("three_inputs_drop_nonlast", "drops", "empty_term_in_all_inputs", "several_inputs", "subset_field_lists", "one_hit_input")
 	case "C18":
 		set("field_switch_unknown", "merged")
 	}
